@@ -56,12 +56,32 @@ def run(ctx):
     ctx.ob("C29.D1-limits", cname(p, None, "limits are min / max of start and stop"), ok, "" if ok else "limit definitions changed", where=where(p, p.node))
     f = repo.func(PL, "tune_centroid._tune_core")
     t = A.norm(f.node)
-    ok = "start = np.clip(peak_position - new_scan_range / 2, low_limit, high_limit)" in t and "stop = np.clip(peak_position + new_scan_range / 2, low_limit, high_limit)" in t
+    # the assignments that refine start / stop, with temporaries followed back through reaching definitions
+    gt = q.cfg(f, q.quiet_policy(repo))
+    refined = {}
+    for st_ in A.walk_stmts(f.node.body):
+        if not isinstance(st_, ast.Assign) or len(st_.targets) != 1 or not gt.nodes_of(st_):
+            continue
+        tg, val = st_.targets[0], st_.value
+        pairs = list(zip(tg.elts, val.elts)) if isinstance(tg, ast.Tuple) and isinstance(val, ast.Tuple) and len(tg.elts) == len(val.elts) else [(tg, val)]
+        for t_, v_ in pairs:
+            if isinstance(t_, ast.Name) and t_.id in ("start", "stop") and A.norm(v_) not in ("start", "stop"):
+                refined.setdefault(t_.id, []).append(A.norm(q.expand_at(gt, gt.nodes_of(st_)[0], v_, keep=("peak_position", "new_scan_range", "low_limit", "high_limit"))))
+    ok = refined.get("start") == ["np.clip(peak_position - new_scan_range / 2, low_limit, high_limit)"] and \
+        refined.get("stop") == ["np.clip(peak_position + new_scan_range / 2, low_limit, high_limit)"]
     ctx.ob("C29.D1-limits", cname(f, None, "the refined range is clipped to the limits"), ok, "" if ok else "refined range can leave [start, stop]", where=where(f, f.node))
     a = repo.func(PL, "adaptive_scan.adaptive_core")
     t = A.norm(a.node)
-    ok = "next_pos = start" in t and "direction_sign = 1" in t and "direction_sign = -1" in t and any(
-        isinstance(s, ast.If) and A.norm(s.test) == "stop >= start" for s in a.node.body)
+    # direction_sign is +1 exactly when stop >= start: an if/else with two assignments or one conditional expression
+    def sign_ok():
+        for s_ in a.node.body:
+            if isinstance(s_, ast.If) and A.norm(s_.test) == "stop >= start" and [A.norm(x) for x in A.body(s_.body)] == ["direction_sign = 1"] \
+                    and [A.norm(x) for x in A.body(s_.orelse)] == ["direction_sign = -1"]:
+                return True
+            if isinstance(s_, ast.Assign) and A.norm(s_.targets[0]) == "direction_sign" and A.norm(s_.value) in ("1 if stop >= start else -1", "-1 if not stop >= start else 1"):
+                return True
+        return False
+    ok = "next_pos = start" in t and sign_ok()
     ctx.ob("C29.D1-limits", cname(a, None, "starts at start; direction from the order of start and stop"), ok, "" if ok else "initialisation changed", where=where(a, a.node))
 
 
